@@ -194,6 +194,7 @@ func translationsAllKind(reg *template.Registry, kind int) *jsMemBundle {
 func directC03Modes(g *G, rep *Report) {
 	directC03Msg(g, rep)
 	directC03SharedNs(g, rep)
+	directC03Nested(g, rep)
 	nsAttrs := []string{"", "true", "false", "contextual"}
 	tAttrs := []string{"", "true", "false", "contextual"}
 	attr := func(a string) string {
@@ -276,6 +277,33 @@ func directC03Modes(g *G, rep *Report) {
 					}
 				}
 			}
+		}
+	}
+}
+
+// directC03Nested: a {template} tag (or a {namespace} tag) written INSIDE a template body must not be able to
+// switch escaping off for the template around it: either the compiler rejects it, or the prints after it are
+// still escaped according to the enclosing template's own mode.
+func directC03Nested(g *G, rep *Report) {
+	esc := "T&lt;&amp;&quot;&#39;&gt;T"
+	inner := []string{"{template .inner autoescape=\"false\"}{/template}", "{template .inner autoescape=\"false\"}x{/template}",
+		"{log}{template .inner autoescape=\"false\"}{/template}{/log}", "{let $q}{template .inner autoescape=\"false\"}{/template}{/let}",
+		"{if true}{template .inner autoescape=\"false\"}{/template}{/if}", "{msg desc=\"d\"}m{template .inner autoescape=\"false\"}{/template}{/msg}", "{namespace other autoescape=\"false\"}"}
+	for _, in := range inner {
+		src := "{namespace n}\n/** @param p */\n{template .t}\nA({$p})" + in + "B({$p})\n{/template}\n"
+		fs := []srcFile{{"n.soy", src}}
+		reg, err := compileBundle(fs)
+		rep.Evaluations++
+		if err != nil {
+			rep.Distribution["nested:rejected"]++
+			rep.DistinctNT++
+			continue
+		}
+		out, cls := renderSafe(reg, "n.t", toData(map[string]interface{}{"p": taint}), nil)
+		rep.Distribution["nested:accepted"]++
+		if cls == "OK" && strings.Contains(out, taint) {
+			rep.Violations = append(rep.Violations, Viol{Key: "nested-template-switches-escaping-off", What: "a {template autoescape=\"false\"} tag inside the body of a template whose mode is on makes the prints after it raw",
+				Req: req("render", encSources(fs), hxs("n.t")), Note: in, Impl: cls + " " + out, Want: "A(" + esc + ")…B(" + esc + ") or a compile error"})
 		}
 	}
 }
